@@ -45,6 +45,9 @@ fn variants() -> Vec<(&'static str, bool, fn(Coin, Coin, Coin) -> (Coin, Coin, C
         ("spent-coin-other-amount", false, |nc, np, c| (nc, np, Coin::new(c.parent_coin_info, c.puzzle_hash, c.amount + 2))),
         ("spent-coin-other-parent", false, |nc, np, c| (nc, np, Coin::new([0x77; 32].into(), c.puzzle_hash, c.amount))),
         ("spent-coin-other-puzzle-hash", false, |nc, np, c| (nc, np, Coin::new(c.parent_coin_info, [0x11; 32].into(), c.amount))),
+        // "rebasing" onto the very coin the spend was made for, under a parent that is not its parent
+        ("same-coin-unrelated-parent", false, |_nc, np, c| (c, np, c)),
+        ("same-coin-parent-other-amount", false, |_nc, np, c| (c, Coin::new(np.parent_coin_info, np.puzzle_hash, np.amount + 2), c)),
     ]
 }
 
@@ -52,12 +55,65 @@ fn spend_files() -> Vec<String> {
     let mut v: Vec<String> = std::fs::read_dir(DIR).map(|d| d.filter_map(|e| e.ok()).filter_map(|e| e.file_name().into_string().ok())
         .filter(|n| n.ends_with(".spend")).collect()).unwrap_or_default();
     v.sort();
+    let custom: Vec<String> = v.iter().map(|f| format!("{f}+custom-launcher")).collect();
+    v.extend(custom);
     v
 }
 
-fn check_one(file: &str, vname: &str) -> Option<Result<(), String>> {
-    let bytes = std::fs::read(format!("{DIR}/{file}")).ok()?;
+
+/// the same singleton spend under a launcher that is not the standard one: the curried singleton struct's launcher puzzle hash
+/// is replaced, and the coin is re-derived so that the spend is consistent (its parent id is the one the puzzle itself asserts)
+fn custom_launcher(spend: &CoinSpend) -> Option<CoinSpend> {
+    use clvmr::allocator::SExp;
+    let mut a = Allocator::new_limited(500_000_000);
+    let puzzle = spend.puzzle_reveal.to_clvm(&mut a).ok()?;
+    let pair = |a: &Allocator, n| match a.sexp(n) { SExp::Pair(l, r) => Some((l, r)), SExp::Atom => None };
+    // (a (q . MOD) (c (q . STRUCT) REST))
+    let (op_a, t1) = pair(&a, puzzle)?;
+    let (qmod, t2) = pair(&a, t1)?;
+    let (args, t3) = pair(&a, t2)?;
+    let (op_c, u1) = pair(&a, args)?;
+    let (qstruct, u2) = pair(&a, u1)?;
+    let (q1, st) = pair(&a, qstruct)?;
+    let (mod_hash, st2) = pair(&a, st)?;
+    let (launcher_id, launcher_ph) = pair(&a, st2)?;
+    if !matches!(a.sexp(launcher_ph), SExp::Atom) || a.atom_len(launcher_ph) != 32 { return None; }
+    let new_lph = a.new_atom(&[0x42; 32]).ok()?;
+    let st2n = a.new_pair(launcher_id, new_lph).ok()?;
+    let stn = a.new_pair(mod_hash, st2n).ok()?;
+    let qstructn = a.new_pair(q1, stn).ok()?;
+    let u1n = a.new_pair(qstructn, u2).ok()?;
+    let argsn = a.new_pair(op_c, u1n).ok()?;
+    let t2n = a.new_pair(argsn, t3).ok()?;
+    let t1n = a.new_pair(qmod, t2n).ok()?;
+    let puzzlen = a.new_pair(op_a, t1n).ok()?;
+    let new_ph = Bytes32::from(tree_hash(&a, puzzlen));
+    let new_puzzle = Program::new(node_to_bytes(&a, puzzlen).ok()?.into());
+    // what parent id does the puzzle assert for itself?  (ASSERT_MY_PARENT_ID = 71)
+    let (_, conds) = new_puzzle.run(&mut a, clvmr::ClvmFlags::empty(), 11_000_000_000, &spend.solution).ok()?;
+    let mut it = conds;
+    let mut parent: Option<[u8; 32]> = None;
+    while let Some((c, rest)) = pair(&a, it) {
+        it = rest;
+        if let Some((op, args)) = pair(&a, c) {
+            if matches!(a.sexp(op), SExp::Atom) && a.atom(op).as_ref() == [71u8] {
+                if let Some((id, _)) = pair(&a, args) { if matches!(a.sexp(id), SExp::Atom) { parent = <[u8; 32]>::try_from(a.atom(id).as_ref()).ok(); } }
+            }
+        }
+    }
+    let parent = parent?;
+    Some(CoinSpend::new(Coin::new(parent.into(), new_ph, spend.coin.amount), new_puzzle, spend.solution.clone()))
+}
+
+fn load_spend(file: &str) -> Option<CoinSpend> {
+    let (base, custom) = match file.strip_suffix("+custom-launcher") { Some(b) => (b, true), None => (file, false) };
+    let bytes = std::fs::read(format!("{DIR}/{base}")).ok()?;
     let spend = CoinSpend::from_bytes(&bytes).ok()?;
+    if custom { custom_launcher(&spend) } else { Some(spend) }
+}
+
+fn check_one(file: &str, vname: &str) -> Option<Result<(), String>> {
+    let spend = load_spend(file)?;
     let (_, genuine, mk) = variants().into_iter().find(|v| v.0 == vname)?;
     let mut a = Allocator::new_limited(500_000_000);
     let puzzle = spend.puzzle_reveal.to_clvm(&mut a).ok()?;
